@@ -82,6 +82,8 @@ OPS = [
     ("calc", "e", ("neg", R("a"))),
     ("join", ("F3",), None, False),
     ("join", ("F3",), None, True),
+    ("join", ("F4",), ("gt", R("g"), R("a")), False),
+    ("join", ("F4",), None, False),
 ]
 
 
@@ -92,7 +94,8 @@ def world(rows):
             LeafSpec("T", "e1", ABC, tuple(rows)),
             LeafSpec("F", "e1", ("a", "d"), FIXED_ROWS),
             LeafSpec("F2", "e1", ("a", "c"), FIXED2_ROWS),
-            LeafSpec("F3", "e1", ("e", "g"), ((0, 3), (-1, 4), (-1, 5))),  # keyed on a column targets only get by calculation
+            LeafSpec("F3", "e1", ("e", "g"), ((0, 3), (-1, 4), (-1, 5))),
+            LeafSpec("F4", "e1", ("g",), ((0,),)),  # exactly one row, shares no column with the targets  # keyed on a column targets only get by calculation
         ),
     )
 
